@@ -37,3 +37,18 @@ def seed():
 
 def quiet():
     warnings.simplefilter("ignore")
+
+
+import contextlib  # noqa: E402
+
+
+@contextlib.contextmanager
+def default_dtype(dtype):
+    """Run a block under another PyTorch default dtype (the harness default is float64, which is also what the
+    repository's own tests set at import; users normally run under float32 with explicitly typed float64 data)."""
+    old = torch.get_default_dtype()
+    torch.set_default_dtype(dtype)
+    try:
+        yield
+    finally:
+        torch.set_default_dtype(old)
